@@ -44,6 +44,12 @@ def rename_fields(fields, resources=None, regex=True):
                             renames[res_name][sf_name] = target_name
                             sf['name'] = target_name
                             break
+                # the primary key follows its fields
+                primary_key = resource['schema'].get('primaryKey')
+                if primary_key:
+                    if isinstance(primary_key, str):
+                        primary_key = [primary_key]
+                    resource['schema']['primaryKey'] = [renames[res_name].get(k, k) for k in primary_key]
         not_matched = [
             src.pattern for src, _ in field_res
             if src.pattern not in matched
